@@ -191,7 +191,11 @@ fn cast_ray(bv: &SimdAabb, ray: &SimdRay) -> (SimdBool, SimdReal) {
             tmin = tmin.simd_max(inter_with_near_plane);
             tmax = tmax.simd_min(inter_with_far_plane);
 
-            tmin.simd_le(tmax)
+            // For a line through a corner of the box the parameters from the two slabs agree only up
+            // to rounding; allow for that so a box the line touches is never pruned (the exact edge
+            // test decides afterwards)
+            let slack = (tmin.simd_max(-tmin) + tmax.simd_max(-tmax)) * SimdReal::splat(8.0 * f64::EPSILON);
+            tmin.simd_le(tmax + slack)
         };
 
         hit = hit & is_not_zero_test.select(is_not_zero, is_zero_test);
